@@ -1,5 +1,5 @@
 (* C04 - numeric ids on the wire resolve to the right definition members.  Statements only (DefsProofs.v). *)
-From RU Require Import Base Types Defs BitReader World DefsProofs.
+From RU Require Import Base Types Defs BitReader World DefsProofs SectionOrder.
 From Coq Require Import Sorting.Permutation.
 Open Scope Z_scope.
 
@@ -70,3 +70,11 @@ Proof. exact has_method_first_wins. Qed.
 (* non-vacuity: ties keep declaration order *)
 Example C04_example : ssort fst [(3, 1); (1, 2); (3, 3); (2, 4); (1, 5)] = [(1, 2); (1, 5); (2, 4); (3, 1); (3, 3)].
 Proof. reflexivity. Qed.
+
+(* the order in which a .def lists its top-level sections (Implements, Properties, ClientMethods, Volatile, ...) is irrelevant - only the order
+   INSIDE a section counts: for every permutation of the sections (each present once) the entity model, and so every index, is the same *)
+Theorem C04_section_order_irrelevant : forall cfg al ifaces tag text kids kids',
+  Permutation kids kids' -> NoDup (map tag_of kids) ->
+  entity_model cfg al ifaces (Node tag text kids) = entity_model cfg al ifaces (Node tag text kids').
+Proof. exact section_order_irrelevant. Qed.
+Print Assumptions C04_section_order_irrelevant.
